@@ -15,15 +15,24 @@ Binding A.  Every Construct edge is replayed on the independent code paths
   xp_ctor      xs:T($s)      xp_ctor_u   xs:T($u)  ($u an xs:untypedAtomic variable)
   xp_cast      $s cast as xs:T (and $u)      xp_castable  $s castable as xs:T (and $u)
   xp_string    string(xs:T($s))
+  py_reparse   T(str(T(s))): equal to T(s), equal hash, and the value the SPEC gives s (timezone offset with its
+               sign, year, ...)                                   xp_reparse   xs:T(string(xs:T($s)))
 under the XPath 3.1 parser (thorough: also 2.0) x XSD 1.0/1.1; every Cast / Castable / ToStr edge on the nested
 expression of the source state's history (BFS spanning tree through passing edges only) as
 `E cast as xs:T`, `xs:T(E)`, `E castable as xs:T`, `string(E)`.
+Literals: every token sequence <= MaxLen over the ASCII family alphabet, probes, and (lexical configurations)
+NON-ASCII look-alikes: each valid base literal with one character replaced by what python's re.IGNORECASE /
+\\d / \\s / int() / float() / str.strip() would take for it (U+017F, U+0130, U+0131, U+212A, U+FF21, U+0661,
+U+FF11, U+FF0B, U+2212, U+00A0, U+2003, U+3000, U+0085, U+001F) or padded with one of the non-XML blanks; the
+spec grammars are ASCII-exact.  Timezone grid: none, Z, +-00:00, +-05:30, +-14:00, +14:01 and the negative
+sub-hour offsets -00:30 / -00:01 / -00:59 (zero hour field: only the '-' carries the sign).
 Second oracles for the SPEC (disagreement = MachineryError): python `re` with the patterns
 printed in XSD 1.1 Part 2, `decimal`, `float`, `bytes.fromhex`, `base64`.
 
 Outside: full Name/NCName/language/anyURI character classes (alphabet representatives only);
 xs:untypedAtomic -> xs:QName; xs:NOTATION; XPath 2.0 casts to xs:QName (literal-only rule);
-xs:float subnormals; literals with more than 8-digit year / duration components (pseudo error LIMIT);
+Name-based types (NMTOKEN, Name, NCName, ID, IDREF, ENTITY, QName) with non-ASCII letter/digit-like characters
+(XML edition dependent: pseudo error UNSPEC); literals with more than 8-digit year / duration components (pseudo error LIMIT);
 xs:anyURI literals containing ':', '%' or '#' and February 29 of a BCE year under XSD 1.0 (pseudo
 error UNSPEC: the W3C text leaves them to the implementation); error codes other than FORG0001 vs FOCA0002.
 """
@@ -66,16 +75,22 @@ for _t in ['string', 'normalizedString', 'token', 'language', 'NMTOKEN', 'Name',
 TIERS = {
     # lex: every literal, no casts (Targets empty: only ToStr edges leave the constructed values)
     # cast: shorter literals, full cast fan-out from the constructed values, primitive targets below
-    'quick': [('lex3', dict(MaxLen=3, MaxCasts=1, Fams=set(ALL_FAMS), Targets=set(), Versions={'1.0', '1.1'}, Grid='small')),
-              ('cast2', dict(MaxLen=2, MaxCasts=2, Fams=set(ALL_FAMS), Targets=set(ALL_TYPES), Versions={'1.0', '1.1'}, Grid='small'))],
-    'thorough': [('lex4', dict(MaxLen=4, MaxCasts=1, Fams=set(ALL_FAMS), Targets=set(), Versions={'1.0', '1.1'}, Grid='full')),
-                 ('cast3', dict(MaxLen=3, MaxCasts=2, Fams=set(ALL_FAMS), Targets=set(ALL_TYPES), Versions={'1.0', '1.1'}, Grid='small'))],
+    'quick': [('lex3', dict(MaxLen=3, MaxCasts=1, Fams=set(ALL_FAMS), Targets=set(), Versions={'1.0', '1.1'}, Grid='small', Lean=False)),
+              ('cast2', dict(MaxLen=2, MaxCasts=2, Fams=set(ALL_FAMS), Targets=set(ALL_TYPES), Versions={'1.0', '1.1'}, Grid='small', Lean=True))],
+    'thorough': [('lex4', dict(MaxLen=4, MaxCasts=1, Fams=set(ALL_FAMS), Targets=set(), Versions={'1.0', '1.1'}, Grid='full', Lean=False)),
+                 ('cast3', dict(MaxLen=3, MaxCasts=2, Fams=set(ALL_FAMS), Targets=set(ALL_TYPES), Versions={'1.0', '1.1'}, Grid='small', Lean=True))],
 }
 PARSERS = {'quick': ['3.1'], 'thorough': ['2.0', '3.1']}      # XPath parser versions (each x XSD 1.0 / 1.1)
 NS = {'a': 'urn:a'}
 NOTZ = 9999
-RENDER = {'TAB': '\t', 'NL': '\n', 'CR': '\r'}
+RENDER = {'TAB': '\t', 'NL': '\n', 'CR': '\r', 'HEX58': '00' * 58,
+          # non-ASCII abstract characters of spec/Lexical.tla (named by code point)
+          'U017F': '\u017f', 'U0130': '\u0130', 'U0131': '\u0131', 'U212A': '\u212a', 'UFF21': '\uff21',
+          'U0661': '\u0661', 'UFF11': '\uff11', 'UFF0B': '\uff0b', 'U2212': '\u2212',
+          'U00A0': '\u00a0', 'U2003': '\u2003', 'U3000': '\u3000', 'U0085': '\u0085', 'U001F': '\u001f'}
 WS_TOKENS = {' ', 'TAB', 'NL', 'CR'}
+UNI_WS = '\u00a0\u2003\u3000\u0085\u001f'
+_NONASCII = re.compile(r'[^\x00-\x7f]|\x1f')
 
 
 def text_of(seq) -> str:
@@ -344,6 +359,8 @@ def oracle(T: str, text: str, ver: str, exp):
                 want = None           # day-of-month in years <= 0: no independent oracle
         if want and T == 'gMonthDay':
             want = int(s[5:7]) <= _month_days(2000, int(s[2:4]))
+    elif T != 'language' and T in FAM_TYPES['name'] and _NONASCII.search(s):
+        want = None           # XML Name classes beyond ASCII differ per XML edition: no oracle
     elif T in ('language', 'NMTOKEN', 'Name', 'NCName', 'ID', 'IDREF', 'ENTITY'):
         want = _W3C[T if T in _W3C else 'NCName'].fullmatch(s) is not None
     elif T == 'boolean':
@@ -509,6 +526,12 @@ def judge(exp, obs, ver: str, code_matters: bool):
 
 def traits(text: str, fam: str = '') -> str:
     """dumb surface classification of a literal, used only in fingerprints"""
+    if any(c in UNI_WS for c in text):
+        # a character that python's \s / str.strip() take for whitespace and XSD does not; U+00A0 apart
+        # (elementpath's own whitespace pattern excludes it, str.strip() does not)
+        kind = 'nbsp' if '\u00a0' in text else 'other'
+        inner = any(c in UNI_WS for c in text.strip(UNI_WS + ' \t\n\r'))
+        return f'uni_ws_{kind}_{"inner" if inner else "outer"}'
     if '_' in text and fam in ('int', 'dec', 'flo'):
         return 'underscore'
     if re.search(r'[+-]NaN', text):
@@ -519,6 +542,8 @@ def traits(text: str, fam: str = '') -> str:
         return 'h24'
     if re.search(r'[ \t\n\r]', text):
         return 'ws_inner' if re.search(r'[ \t\n\r]', text.strip(' \t\n\r')) else 'ws_outer'
+    if _NONASCII.search(text):
+        return 'nonascii'
     return 'plain'
 
 
@@ -531,7 +556,9 @@ def canon_class(exp) -> str:
         if not exp['dg']:
             return 'negzero' if exp['neg'] else 'zero'
         ex = exp['ex']
-        m1 = '_mant1' if len(exp['dg']) == 1 else ''
+        if exp['t'] == 'float' and ex <= -38:
+            return 'float_below_1e-37'
+        m1 = '_mant1' if len(exp['dg']) == 1 else ('_exp0' if ex % 10 == 0 and (ex >= 16 or ex <= -5) else '')
         if -4 <= ex <= 5:
             return 'decimal_notation'
         if -6 <= ex < -4:
@@ -543,11 +570,15 @@ def canon_class(exp) -> str:
         if not exp['ip'] and not exp['fp']:
             return 'zero'
         return 'fraction' if exp['fp'] else 'integral'
+    if k == 'bin':
+        return 'octets_ge58' if len(exp['o']) >= 58 else '-'      # base64 text longer than one MIME line
     if k == 'dur':
         return 'zero' if (exp['mo'] == 0 and exp['se'] == 0 and not exp['fr']) else 'nonzero'
     if k == 'dt':
         if exp['y'] < -9999:
             return 'year_lt_-9999'
+        if -60 < exp['tz'] < 0:
+            return 'tz_neg_subhour'
         return 'tz' if exp['tz'] != NOTZ else 'notz'
     return '-'
 
@@ -572,6 +603,7 @@ def construct_worker(job):
         fam = FAM_OF[T]
         tr = traits(text, fam)
         base = dict(action='Construct', family=fam, type=T, facet=facet, trait=tr, xsd=ver,
+                    nonascii=bool(_NONASCII.search(text)),
                     expected=('err' if exp['k'] == 'err' else 'value'), exp_code=exp.get('code', '-'),
                     vclass=(canon_class(exp) if exp['k'] != 'err' else '-'))
 
@@ -599,6 +631,20 @@ def construct_worker(job):
                     s = ('escaped', type(e).__name__)
                 if s != canon:
                     fail('py_str', 'wrong_canonical', s)
+                # the printed form re-parses to an equal value with an equal hash - and to the value the
+                # SPEC gives the literal (timezone offset with its sign, year, ...), whatever was printed
+                if isinstance(s, str):
+                    obs2 = py_construct(T, s, ver)
+                    n_eval += 1
+                    out = judge(exp, obs2, ver, False)
+                    if out is None and not (exp['k'] == 'flo' and exp['c'] == 'nan'):
+                        try:
+                            if not (obs2[1] == obs[1] and hash(obs2[1]) == hash(obs[1])):
+                                out = 'unequal_or_hash'
+                        except Exception as e:   # noqa
+                            out = f'escaped:{type(e).__name__}'
+                    if out is not None:
+                        fail('py_reparse', out, (s, obs2))
         obs = py_is_valid(T, text, ver)
         n_eval += 1
         want_valid = exp['k'] != 'err'
@@ -637,6 +683,12 @@ def construct_worker(job):
                 n_eval += 1
                 if obs != ('val', canon):
                     fail('xp_string', 'wrong_canonical' if obs[0] == 'val' else f'{obs[0]}:{obs[1]}', obs, parser=pv)
+            if want_valid:
+                obs = xp_eval(f'xs:{T}(string(xs:{T}($s)))', pv, ver, {'s': text})
+                n_eval += 1
+                out = judge(exp, obs, ver, False)
+                if out is not None:
+                    fail('xp_reparse', out, obs, parser=pv)
             ok_xp[pv] = good
         passed.append((eid, ok_xp, py_ok and not (exp['k'] == 'flo' and exp['c'] == 'nan')))
     return n_eval, fails, oracle_msgs, passed
@@ -697,6 +749,7 @@ def chain_worker(job):
         base = dict(action=action, family=FAM_OF[T] if T else 'str', type=T or 'string', src_type=src['t'], src_prim=sp,
                     dst_prim=PRIM[T] if T else 'str', xsd=ver, expected=('err' if exp['k'] == 'err' else 'value'),
                     exp_code=code, vclass=canon_class(src), facet='cast',
+                    dst_vclass=canon_class(exp),
                     trait=(traits(text_of(src['s']), FAM_OF[T] if T else '') if src['k'] == 'str' else '-'))
 
         def fail(path, outcome, observed, e):
@@ -745,7 +798,8 @@ def replay(rec: dict) -> int:
         valid = exp['k'] != 'err'
         exprs = {'xp_ctor': (f'xs:{T}($s)', 's'), 'xp_ctor_u': (f'xs:{T}($u)', 'u'), 'xp_cast': (f'$s cast as xs:{T}', 's'),
                  'xp_cast_u': (f'$u cast as xs:{T}', 'u'), 'xp_castable': (f'$s castable as xs:{T}', 's'),
-                 'xp_castable_u': (f'$u castable as xs:{T}', 'u'), 'xp_string': (f'string(xs:{T}($s))', 's')}
+                 'xp_castable_u': (f'$u castable as xs:{T}', 'u'), 'xp_string': (f'string(xs:{T}($s))', 's'),
+                 'xp_reparse': (f'xs:{T}(string(xs:{T}($s)))', 's')}
         if path == 'py_ctor':
             obs = py_construct(T, text, ver)
             out = judge(exp, obs, ver, False)
@@ -753,6 +807,12 @@ def replay(rec: dict) -> int:
             obs = py_construct(T, text, ver)
             obs = ('val', str(obs[1])) if obs[0] == 'val' else obs
             out = None if obs == ('val', canon) else 'wrong_canonical'
+        elif path == 'py_reparse':
+            first = py_construct(T, text, ver)
+            obs = py_construct(T, str(first[1]), ver) if first[0] == 'val' else first
+            out = judge(exp, obs, ver, False)
+            if out is None and not (obs[1] == first[1] and hash(obs[1]) == hash(first[1])):
+                out = 'unequal_or_hash'
         elif path == 'py_is_valid':
             obs = py_is_valid(T, text, ver)
             out = None if obs == ('val', valid or exp.get('code') == 'FONS0004') else 'is_valid'
